@@ -96,13 +96,13 @@ class ParsedAnsiControlSequenceString:
         '''
         Returns the formatted string
         '''
-        return self.formatted_str()
+        return self.formatted_str
 
     def __repr__(self) -> str:
         '''
         Returns the formatted string
         '''
-        return self.formatted_str()
+        return self.formatted_str
 
     @property
     def formatted_str(self) -> str:
@@ -110,15 +110,13 @@ class ParsedAnsiControlSequenceString:
         Returns the formatted string
         '''
         out_str = ''
-        last_terminator = ''
         last_idx = 0
         for key, value_list in self.sequences.items():
             for value in value_list:
-                out_str += self._s[last_idx:key] + last_terminator
-                out_str += ansi_control_sequence_introducer + value.sequence
-                last_terminator = value.terminator
+                out_str += self._s[last_idx:key]
+                out_str += ansi_control_sequence_introducer + value.sequence + value.terminator
                 last_idx = key
-        out_str += self._s[last_idx:] + last_terminator
+        out_str += self._s[last_idx:]
         return out_str
 
     @property
